@@ -1,6 +1,7 @@
 package session
 
 import (
+	"sort"
 	"sync"
 
 	"github.com/256dpi/gomqtt/packet"
@@ -9,6 +10,8 @@ import (
 // PacketStore is a goroutine safe packet store.
 type PacketStore struct {
 	packets map[packet.ID]packet.Generic
+	order   map[packet.ID]uint64
+	counter uint64
 	mutex   sync.RWMutex
 }
 
@@ -16,6 +19,7 @@ type PacketStore struct {
 func NewPacketStore() *PacketStore {
 	return &PacketStore{
 		packets: make(map[packet.ID]packet.Generic),
+		order:   make(map[packet.ID]uint64),
 	}
 }
 
@@ -24,6 +28,7 @@ func NewPacketStoreWithPackets(packets []packet.Generic) *PacketStore {
 	// prepare store
 	store := &PacketStore{
 		packets: make(map[packet.ID]packet.Generic),
+		order:   make(map[packet.ID]uint64),
 	}
 
 	// add packets
@@ -42,6 +47,13 @@ func (s *PacketStore) Save(pkt packet.Generic) {
 
 	id, ok := packet.GetID(pkt)
 	if ok {
+		// remember when the id has first been saved, a packet that replaces
+		// another one (pubrel for publish) keeps its position
+		if _, exists := s.packets[id]; !exists {
+			s.counter++
+			s.order[id] = s.counter
+		}
+
 		s.packets[id] = pkt
 	}
 }
@@ -62,6 +74,7 @@ func (s *PacketStore) Delete(id packet.ID) {
 
 	// delete packet
 	delete(s.packets, id)
+	delete(s.order, id)
 }
 
 // All will return all packets currently saved in the store.
@@ -70,9 +83,21 @@ func (s *PacketStore) All() []packet.Generic {
 	defer s.mutex.RUnlock()
 
 	// collect packets
+	// collect ids
+	ids := make([]packet.ID, 0, len(s.packets))
+	for id := range s.packets {
+		ids = append(ids, id)
+	}
+
+	// sort ids by the order in which they have first been saved
+	sort.Slice(ids, func(i, j int) bool {
+		return s.order[ids[i]] < s.order[ids[j]]
+	})
+
+	// collect packets
 	var all []packet.Generic
-	for _, pkt := range s.packets {
-		all = append(all, pkt)
+	for _, id := range ids {
+		all = append(all, s.packets[id])
 	}
 
 	return all
@@ -85,4 +110,5 @@ func (s *PacketStore) Reset() {
 
 	// reset packets
 	s.packets = make(map[packet.ID]packet.Generic)
+	s.order = make(map[packet.ID]uint64)
 }
